@@ -66,6 +66,7 @@ pub struct ZarrTraceStorage {
     param_types: Vec<(String, ItemType)>,
     draw_types: Vec<(String, ItemType)>,
     event_dim_of_stat: HashMap<String, String>,
+    store_warmup: bool,
 }
 
 /// Per-chain storage for Zarr MCMC traces
@@ -76,6 +77,7 @@ pub struct ZarrChainStorage {
     chain: u64,
     last_sample_was_warmup: bool,
     event_dim_of_stat: HashMap<String, String>,
+    store_warmup: bool,
     warmup_event_counts: HashMap<String, u64>,
 }
 
@@ -169,6 +171,7 @@ impl ZarrChainStorage {
         buffer_size: u64,
         chain: u64,
         event_dim_of_stat: HashMap<String, String>,
+        store_warmup: bool,
     ) -> Self {
         let draw_buffers = draw_types
             .iter()
@@ -186,6 +189,7 @@ impl ZarrChainStorage {
             chain,
             last_sample_was_warmup: true,
             event_dim_of_stat,
+            store_warmup,
             warmup_event_counts: HashMap::new(),
         }
     }
@@ -239,6 +243,9 @@ impl ChainStorage for ZarrChainStorage {
         draws: Vec<(&str, Option<Value>)>,
         info: &Progress,
     ) -> Result<()> {
+        if info.tuning && !self.store_warmup {
+            return Ok(());
+        }
         let is_first_draw = self.last_sample_was_warmup && !info.tuning;
         if is_first_draw {
             self.warmup_event_counts = event_counts(&self.event_dim_of_stat, &self.stats_buffers);
@@ -433,7 +440,12 @@ impl StorageConfig for ZarrConfig {
 
     fn new_trace<M: Math>(self, settings: &impl Settings, math: &M) -> Result<Self::Storage> {
         let n_chains = settings.num_chains() as u64;
-        let n_tune = settings.hint_num_tune() as u64;
+        // without warmup storage the warmup arrays stay empty
+        let n_tune = if self.store_warmup {
+            settings.hint_num_tune() as u64
+        } else {
+            0
+        };
         let n_draws = settings.hint_num_draws() as u64;
 
         let param_types = settings.stat_types(math);
@@ -598,6 +610,7 @@ impl StorageConfig for ZarrConfig {
             draw_types,
             draw_chunk_size,
             event_dim_of_stat,
+            store_warmup: self.store_warmup,
         })
     }
 }
@@ -615,6 +628,7 @@ impl TraceStorage for ZarrTraceStorage {
             self.draw_chunk_size,
             chain_id as _,
             self.event_dim_of_stat.clone(),
+            self.store_warmup,
         ))
     }
 
